@@ -118,6 +118,8 @@ def replay_history(cfg, seed, hist, states, check_f2x=False):
     H = ts.h
     gen, d, v = ts.generator(NT, fvec[:, 0].copy(), d0, v0, static_ic)
 
+    devs = []
+
     def compare(prefix, where):
         st = states[prefix]
         expd = np.zeros((n, NT))
@@ -126,9 +128,11 @@ def replay_history(cfg, seed, hist, states, check_f2x=False):
         for j in range(NT):
             expd[:, j], expv[:, j] = interp.term(st["x"][j])
             expf[:, j] = interp.F(st["force"][j])
-        if not np.array_equal(ts._force, expf):
-            return dict(clause="ts._force equals the force history in effect (spec `force`)", where=where,
-                        got=ts._force, exp=expf)
+        # the stored force history is a private member: compared when present, and a difference is a deviation from the spec's
+        # `force` variable (reported by the caller), not a violation - the property is about d, v and the finalized result
+        fnow = getattr(ts, "_force", None)
+        if fnow is not None and not np.array_equal(fnow, expf) and not devs:
+            devs.append("ts._force differs from the force history in effect (spec `force`) %s" % where)
         # scales guard against exact cancellation (e.g. static ic + constant force: v == 0 up to round-off)
         sd = max(np.abs(expd).max(), H * np.abs(expv).max(), 1e-300)
         sv = max(np.abs(expv).max(), np.abs(expd).max() / H, 1e-300)
@@ -175,8 +179,8 @@ def replay_history(cfg, seed, hist, states, check_f2x=False):
                     return dict(clause="finalize(): %s on completed steps equals batch tsolve of the force history in effect" % nm,
                                 where="finalize", relerr=err, cur=cur)
             if hasattr(ts, "_d") or hasattr(ts, "_force"):
-                return dict(clause="finalize() deletes the internal references", where="finalize")
-            return None
+                devs.append("finalize() does not delete the internal references (documented clean-up of private members)")
+            return dict(deviation=devs[0]) if devs else None
         prefix = prefix + (act,)
         r = compare(prefix, "after action %d %r" % (len(prefix), act))
         if r:
@@ -202,7 +206,7 @@ def replay_history(cfg, seed, hist, states, check_f2x=False):
                 if not np.abs(got - exp).max() <= 1e-7 * sc:
                     return dict(clause="get_f2x(%s) column = change produced by a unit add-on force (order %d)" % (nm, cfg["order"]),
                                 where="f2x column %d" % kcol, got=got, exp=exp)
-    return None
+    return dict(deviation=devs[0]) if devs else None
 
 
 _G = {}
@@ -269,7 +273,7 @@ def body(run: Run, replay):
         _init(tmp.name)
         c, s, h, r = _work((rec["cfg"], rec["seed"], fz(rec["hist"]), True))
         run.case(("r", 1)); run.case(("r", 2))
-        if r:
+        if r and "clause" in r:
             run.violation(r["clause"], {"cfg": c, "seed": s, "hist": h, "detail": r}, {"solver": c["solver"]})
         os.unlink(tmp.name)
         return
@@ -296,7 +300,9 @@ def body(run: Run, replay):
             run.trace_validated()
             if nontriv:
                 run.sample({"cfg": cfg, "history": h}, limit=4)
-            if r:
+            if r and "deviation" in r:
+                run.deviation("OdeGen (private state)", r["deviation"], {"cfg": cfg, "hist": h})
+            elif r:
                 run.violation(r["clause"], {"cfg": cfg, "seed": seed, "hist": h, "detail": r},
                               {"solver": cfg["solver"], "kind": cfg["kind"]})
     os.unlink(tmp.name)
